@@ -18,6 +18,7 @@ import (
 	"github.com/hashicorp/hcl/v2/hclsyntax"
 	hcljson "github.com/hashicorp/hcl/v2/json"
 	"github.com/zclconf/go-cty/cty"
+	"github.com/zclconf/go-cty/cty/function"
 
 	"verif/engine"
 	ex "verif/gen/expr"
@@ -187,6 +188,41 @@ func gen(tier string, emit func(engine.Case) bool) {
 	genBodies(tier, emit)
 }
 
+// funcs: the pool's functions plus functions whose parameter types force a per-element conversion of
+// a collection / structural argument (with and without AllowMarked).
+var extraFuncs = func() map[string]function.Function {
+	m := pool.ImplFuncs()
+	mk := func(name string, ty cty.Type, allowMarked bool) {
+		m[name] = function.New(&function.Spec{
+			Params: []function.Parameter{{Name: "x", Type: ty, AllowMarked: allowMarked}},
+			Type:   function.StaticReturnType(cty.Number),
+			Impl:   func(args []cty.Value, _ cty.Type) (cty.Value, error) { return cty.Zero, nil },
+		})
+	}
+	for _, am := range []bool{false, true} {
+		sfx := ""
+		if am {
+			sfx = "m"
+		}
+		mk("mapn"+sfx, cty.Map(cty.Number), am)
+		mk("listn"+sfx, cty.List(cty.Number), am)
+		mk("setb"+sfx, cty.Set(cty.Bool), am)
+		mk("objn"+sfx, cty.Object(map[string]cty.Type{"a": cty.Number, "b": cty.Number}), am)
+		mk("mapmapn"+sfx, cty.Map(cty.Map(cty.Number)), am)
+		mk("listobj"+sfx, cty.List(cty.Object(map[string]cty.Type{"a": cty.Bool})), am)
+	}
+	return m
+}()
+
+func funcs() map[string]function.Function { return extraFuncs }
+
+// nearly: the name with its last character changed / one character dropped / one added: names
+// "close to" a canary attribute name or key, for the sites that suggest similar names.
+func nearly(name string) []string {
+	// (none of them contains the canary itself: the source text is quoted in the text rendering)
+	return []string{name[:len(name)-1] + "Q", name[:len(name)-1], name[:5] + "_" + name[5:], strings.ToLower(name[:1]) + name[1:]}
+}
+
 // erroneous: forms chosen to reach the diagnostic sites that format values.
 func erroneous() []*ex.E {
 	v, k := ex.Var("v"), ex.Var("k")
@@ -225,6 +261,21 @@ func erroneous() []*ex.E {
 			ex.Attr(ex.Idx(cv, ex.Num("0")), "nope"), ex.Attr(ex.Attr(cv, "a"), "nope"),
 			ex.Bin("+", ex.Idx(cv, ex.Num("0")), ex.Num("1")), ex.Call("add", ex.Attr(cv, "a"), ex.Num("1")),
 		)
+		// arguments whose conversion to the parameter type fails (or not) inside the value
+		for _, f := range []string{"mapn", "listn", "setb", "objn", "mapmapn", "listobj"} {
+			for _, sfx := range []string{"", "m"} {
+				out = append(out, ex.Call(f+sfx, cv), ex.Call(f+sfx, ex.Tuple(cv)), ex.Call(f+sfx, ex.Obj(ex.IdItem("a", cv))), ex.Call(f+sfx, ex.Obj(ex.IdItem("k", cv))),
+					ex.Call(f+sfx, ex.Attr(cv, "a")), ex.Call(f+sfx, ex.Idx(cv, ex.Num("0"))))
+			}
+		}
+		// names close to an attribute name / key of the marked value
+		for _, cn := range []string{canaryStr, canaryStr2} {
+			for _, nm := range nearly(cn) {
+				out = append(out, ex.Attr(cv, nm), ex.Idx(cv, ex.Str(nm)), ex.Splat(cv, true, ex.SAttr(nm)), ex.Splat(cv, false, ex.SAttr(nm)),
+					ex.Attr(ex.Idx(cv, ex.Num("0")), nm), ex.Attr(ex.Attr(cv, "a"), nm), ex.Attr(ex.Attr(cv, "b"), nm),
+					ex.ForT("", "v", cv, ex.Attr(v, nm), nil))
+			}
+		}
 	}
 	return out
 }
@@ -259,7 +310,7 @@ func judgeJSON(d Data) engine.Outcome {
 			continue
 		}
 		for pi, cv := range canaries(pool.Vars[name]) {
-			ctx := &hcl.EvalContext{Variables: pool.WithVar(name, cv), Functions: pool.ImplFuncs()}
+			ctx := &hcl.EvalContext{Variables: pool.WithVar(name, cv), Functions: funcs()}
 			_, diags := expr.Value(ctx)
 			ndiags += len(diags)
 			if leak := checkDiags(diags, files); leak != "" {
@@ -317,7 +368,7 @@ func judge(c engine.Case) engine.Outcome {
 	var sums []string
 	for _, name := range pool.FreeVars(d.E) {
 		for pi, cv := range canaries(pool.Vars[name]) {
-			ctx := &hcl.EvalContext{Variables: pool.WithVar(name, cv), Functions: pool.ImplFuncs()}
+			ctx := &hcl.EvalContext{Variables: pool.WithVar(name, cv), Functions: funcs()}
 			_, diags := expr.Value(ctx)
 			ndiags += len(diags)
 			if leak := checkDiags(diags, files); leak != "" {
